@@ -671,6 +671,23 @@ fn engine_uninit(args: &Args) -> i32 {
         }
     }
     if shard == 0 {
+        for which in 0..5 {
+            run(
+                uninit::refused_len_case::<tk::T8, tk::T8>(which, &mut st),
+                format!("refused length T8/T8 #{}", which),
+                &mut nviol,
+            );
+            run(
+                uninit::refused_len_case::<tk::TB, tk::T32>(which, &mut st),
+                format!("refused length TB/T32 #{}", which),
+                &mut nviol,
+            );
+            run(
+                uninit::refused_len_case::<tk::Z, tk::T1>(which, &mut st),
+                format!("refused length Z/T1 #{}", which),
+                &mut nviol,
+            );
+        }
         for path in 0..uninit::SIZED_PATHS {
             run(
                 uninit::sized_case::<tk::T8>(path, &mut st),
